@@ -14,6 +14,16 @@
 (*               close(done) }                           Close                 *)
 (*       return cached                                   ReadCached, Return    *)
 (*                                                                             *)
+(* V is opaque.  Values are modelled as plain identifiers because the code must *)
+(* never look into them: a constructed value may be nil, a function (even one  *)
+(* of the loader's own type func() V when V = any), a channel, a map, a struct *)
+(* holding a function.  In particular the entry of a key in c.loaders is its   *)
+(* LOADER for ever (TypeOK: map[k] is a loader; MapStable: it is never         *)
+(* replaced) -- never the constructed value itself, which could not be told    *)
+(* from a loader -- and values are only stored (StoreCached) and handed back   *)
+(* (ReadCached, Return).  The harness instantiates V with all those types and  *)
+(* requires that no constructed function is ever invoked by the library.       *)
+(*                                                                             *)
 (* A loader is an object of its own (a closure with its private `done` channel *)
 (* and `cached` variable); c.loaders maps keys to loaders.  A process whose    *)
 (* loader's channel neither holds the token nor is closed has no enabled step: *)
